@@ -359,6 +359,11 @@ def check(case, ctx) -> Result:
                     res.violations.append(Viol("accessors_disagree_with_delta", f"{what}: t={t} added()/removed() = {acc['added']}/{acc['removed']} but delta_value = {delta}", feats))
                     break
             if acc and schema[0] == "TSD":
+                prev_keys = {k for k, _ in (prev or [])}
+                cur_keys = {k for k, _ in (cur or [])}
+                if sorted(acc["added"]) != sorted(cur_keys - prev_keys):
+                    res.violations.append(Viol("added_keys_wrong", f"{what}: t={t} added_keys() = {acc['added']} but the keys new in this tick are {sorted(cur_keys - prev_keys)} (previous keys {sorted(prev_keys)}, now {sorted(cur_keys)})", feats))
+                    break
                 if sorted(acc["removed"]) != sorted(delta["removed"]) or sorted(acc["modified"]) != sorted(k for k, _ in delta["modified"]):
                     res.violations.append(Viol("accessors_disagree_with_delta", f"{what}: t={t} removed_keys()/modified_keys() = {acc['removed']}/{acc['modified']} but delta_value = {delta}", feats))
                     break
